@@ -29,7 +29,10 @@ GENERIC = (
     "whose minter is the pair; callers whose address the codec cannot canonicalise; a nested Receive envelope as hook payload; "
     "the spread handed to the guard clamped; simulation refusing near the reserve-product cap; limb-wise Display with early exit; "
     "a from_ratio shortcut judged on leading bits; whitelists hundreds of addresses long; a solvency check in front of withdrawals; "
-    "unrelated coins held by the router; a withdraw hook relayed by a pool asset token; TransferFrom-based direct cw20 swaps"
+    "unrelated coins held by the router; a withdraw hook relayed by a pool asset token; TransferFrom-based direct cw20 swaps; "
+    "anything keyed on block height or time; an empty whitelist read as 'anyone'; a check skipped for token-first pairs; the "
+    "minimum-receive assertion skipped when an up-front quote clears it; the pair keeping the last unit of a reserve; page size 0; "
+    "slippage captured for the factory when both swap limits are given"
 )
 
 
